@@ -135,6 +135,13 @@ def main(argv):
                         ctx.proof_break('audit', f'{t} depends on {ax}')
                     else:
                         discharged += 1
+                if ctx.thorough:
+                    # independent re-check of the compiled proofs with the toolchain's leanchecker
+                    mods = [pmod] + obl_modules
+                    r = common.sh(['lake', 'env', 'leanchecker', *mods], cwd=LEAN, timeout=3000)
+                    ctx.extra['leanchecker'] = {'modules': mods, 'rc': r.returncode, 'tail': r.stdout[-300:]}
+                    if r.returncode != 0:
+                        ctx.proof_break('leanchecker', r.stdout[-1500:])
         # 4-5: correspondence and oracle on the real code
         driver_ok = not any(b['kind'] == 'build' and any(str(f).startswith('Driver') or str(f).startswith('Autobean.Model') for f in b['detail']['failed_modules']) for b in ctx.proof_breaks)
         ctx.extra['model_available'] = driver_ok
